@@ -36,7 +36,7 @@ def shuffled_nc_style(rng, inp, identity=False):
             "time_type": "i4" if fits else "f8"}
 
 
-def write_variant(ds, d, rng, identity):
+def write_variant(ds, d, rng, identity, conflict=False):
     """Write every input; identity=False permutes rows/columns/dimension entries."""
     os.makedirs(d, exist_ok=True)
     paths = []
@@ -51,6 +51,9 @@ def write_variant(ds, d, rng, identity):
             st = gen.default_text_style(inp, None)
             st["shuffle_rows"] = not identity
             st["shuffle_cols"] = not identity
+            if not identity and conflict and len(inp["locs"]) > 1:
+                # some rows of one station disagree on its latitude (verif warns, keeps the first): values are still matched by id
+                st["conflict"] = {gen.fnum(rng.choice(inp["locs"])[0]): 0.5}
             w["style"] = st
             nonid = nonid or not identity
         paths.append(gen.write_input(w, d, rng))
@@ -70,7 +73,8 @@ def run_case(ctx, rng, ci):
     F = len(ds["inputs"])
     base = os.path.join(ctx.workdir, "c%d" % ci)
     pa, _ = write_variant(ds, os.path.join(base, "a"), rng, True)
-    pb, nonid = write_variant(ds, os.path.join(base, "b"), rng, False)
+    conflict = rng.random() < 0.3
+    pb, nonid = write_variant(ds, os.path.join(base, "b"), rng, False, conflict)
     case = {"ds": ds}
     fmts = "".join(i["fmt"][0] for i in ds["inputs"])
     times, leads, locs = refmodel.common_dims(ds)
@@ -118,6 +122,10 @@ def run_case(ctx, rng, ci):
         # the only legitimate difference is the directory in the warning texts
         la = [l for l in ta.split("\n") if not l.startswith("Warning")]
         lb = [l for l in tb.split("\n") if not l.startswith("Warning")]
+        if conflict and cmd[3] in ("location", "lat"):
+            # which of the conflicting latitudes is kept legitimately depends on the row order: compare the scores only
+            la = [",".join(l.split(",")[4:]) for l in la]
+            lb = [",".join(l.split(",")[4:]) for l in lb]
         if oa.status != ob.status or la != lb:
             ctx.violation("row-or-dimension-order-matters|%s" % cmd[1], "verif <files> %s -type csv differs after permuting rows/columns/"
                           "dimension entries inside the files:\n%s\nvs\n%s" % (" ".join(cmd), "\n".join(la)[-500:], "\n".join(lb)[-500:]), case)
@@ -143,6 +151,8 @@ def run_case(ctx, rng, ci):
             break
         cols = {names[j]: [r[nd + j] for r in rows] for j in range(F)}
         descs = [r[:nd] for r in rows]
+        if conflict and cmd[3] in ("location", "lat"):
+            descs = [r[:1] for r in rows]      # the first file's (conflicting) latitude is shown: only ids are comparable
         if ref_cols is None:
             ref_cols = (cols, descs)
         else:
